@@ -476,6 +476,18 @@ def explore(ctx, n_nets, n_numba, with_corr=True):
     return captured
 
 
+def gen_if_needed(ctx, name, text):
+    """ctx.gen takes the shared build lock; skip it when the generated text is already on disk unchanged"""
+    import vlib
+    path = os.path.join(getattr(vlib, "COQ", os.path.join(vlib.VERIF, "coq")), "Gen", name + ".v")
+    try:
+        if open(path).read() == text:
+            return path
+    except OSError:
+        pass
+    return ctx.gen(name, text)
+
+
 def run(ctx):
     ctx.extra["rule"] = ("monitor nets: seeded star / mesh / loop / shared heat-profile networks plus the fixed two-stream "
                          "witness; distinct = canonical JSON of the build spec + mode + numba; non-trivial = everything but "
@@ -483,11 +495,15 @@ def run(ctx):
                          "overwritten with integers in [-9, 9], direction flags / stagnant branches / T-typing / infeed "
                          "patterns varied; distinct = hash of the integer case; non-trivial = >= 3 branches and a switched "
                          "branch or a non-real typing variant")
+    import time
+    t0 = time.time()
+    ph = ctx.extra.setdefault("phase_s", {})
     for name, fn in GEN:
         try:
-            ctx.gen(name, fn())
+            gen_if_needed(ctx, name, fn())
         except Exception as e:  # noqa: BLE001
             ctx.broken("translator", name, repr(e))
+    ph["gen"] = round(time.time() - t0, 1)
     # the Coq build (which may wait for the shared build lock) runs while the monitors run
     import threading
     res = {}
@@ -497,10 +513,13 @@ def run(ctx):
     try:
         captured = explore(ctx, n_nets, n_numba)
     finally:
+        ph["monitors"] = round(time.time() - t0, 1)
         th.join()
+        ph["build_joined"] = round(time.time() - t0, 1)
     proved = res.get("proved", False)
     if captured:
         correspondence(ctx, captured)
+        ph["correspondence"] = round(time.time() - t0, 1)
     else:
         ctx.broken("correspondence", "no thermal pit could be captured", "")
     if (not proved or ctx.brokens) and not ctx.violations:
